@@ -1,6 +1,7 @@
 package main
 
 import (
+	"bytes"
 	"os"
 	"sync"
 	"time"
@@ -66,7 +67,7 @@ func syncRaceRound(en *Env, i int, stats map[string]int) {
 			c = v.(int)
 		}
 		if ev.Phase == 0 {
-			if ev.Kind == "sync" && c == 1 {
+			if ev.Kind == "sync" && (c == 1 || c == 3) {
 				gate.Lock()
 				if gate.armed {
 					gate.armed = false
@@ -94,7 +95,12 @@ func syncRaceRound(en *Env, i int, stats map[string]int) {
 	if err != nil {
 		return
 	}
-	defer func() { guardName(func() error { return db.Close() }) }()
+	closed := false
+	defer func() {
+		if !closed {
+			guardName(func() error { return db.Close() })
+		}
+	}()
 	call := func(c int, put bool, k int, n int) {
 		op := "Delete"
 		if put {
@@ -124,7 +130,28 @@ func syncRaceRound(en *Env, i int, stats map[string]int) {
 		gate.Unlock()
 		aDone := make(chan struct{})
 		ka, na, aput := 1+r.Intn(4), vlen(), r.Intn(5) != 0
-		go func() { call(1, aput, ka, na); close(aDone) }()
+		if s%3 == 2 {
+			// A commits a batch created with Sync (it holds the database lock from NewBatch to the end of Commit, its
+			// fsync included): B's rival writes to the same keys must wait. Its I/O is logged under client 3, which has
+			// no obligations in the specification; what is judged is the note at the end of the round.
+			go func() {
+				clientOf.Store(goid(), 3)
+				guardName(func() error {
+					b := db.NewBatch(kv.BatchOptions{Sync: true})
+					if err := b.Put(u.Key(ka), bytes.Repeat([]byte{0xA5}, na)); err != nil {
+						return err
+					}
+					if err := b.Put(u.Key(1+ka%4), bytes.Repeat([]byte{0xA6}, na)); err != nil {
+						return err
+					}
+					return b.Commit()
+				})
+				clientOf.Delete(goid())
+				close(aDone)
+			}()
+		} else {
+			go func() { call(1, aput, ka, na); close(aDone) }()
+		}
 		select {
 		case <-aDone: // no fsync in this call
 			gate.Lock()
@@ -158,8 +185,60 @@ func syncRaceRound(en *Env, i int, stats map[string]int) {
 		case <-time.After(25 * time.Millisecond):
 			stats["b_blocked"]++
 		}
+		// a batch commit issues several fsyncs (its records, its sealing record): it is parked at each of them in turn,
+		// and B gets its chance every time
+		for s%3 == 2 {
+			gate.Lock()
+			gate.armed = true
+			gate.parked, gate.release = make(chan struct{}), make(chan struct{})
+			parked2, release2 := gate.parked, gate.release
+			gate.Unlock()
+			close(release)
+			release = release2
+			again := false
+			select {
+			case <-aDone:
+			case <-parked2:
+				again = true
+				select {
+				case <-bDone:
+				case <-time.After(25 * time.Millisecond):
+				}
+			}
+			if !again {
+				gate.Lock()
+				gate.armed = false
+				gate.Unlock()
+				break
+			}
+		}
 		close(release)
 		<-aDone
 		<-bDone
 	}
+	// quiescent: what the live database serves is what a restart recovers (the order in which racing writes reached
+	// the log is the order in which they won)
+	live := make([][]byte, 5)
+	for k := 1; k <= 4; k++ {
+		live[k], _ = db.Get(u.Key(k))
+	}
+	h.SetIOHandler(nil)
+	closed = true
+	if guardName(func() error { return db.Close() }) != "ok" {
+		return
+	}
+	db2, err := kv.Open(cfg.Options(dir))
+	if err != nil {
+		emit(h.Ev{"ev": "note", "check": "liverec", "ok": false, "why": "reopen: " + err.Error()})
+		return
+	}
+	same := true
+	for k := 1; k <= 4; k++ {
+		rec, _ := db2.Get(u.Key(k))
+		if !bytes.Equal(rec, live[k]) {
+			same = false
+		}
+	}
+	db2.Close()
+	emit(h.Ev{"ev": "note", "check": "liverec", "ok": same})
 }
